@@ -105,7 +105,18 @@ pub fn gen(rng: &mut Rng, _tier: &str) -> String {
             format!("C16 kernel pack {}", tohex(&b))
         }
         8 => { let n = len_choice(rng); format!("C16 str {}", tohex(&ascii_mix(rng, n, true))) }
-        9 => { let n = len_choice(rng); format!("C16 only {}", tohex(&ascii_mix(rng, n, true))) }
+        9 => {
+            if rng.chance(1, 2) {
+                // runs of bases with lengths on both sides of the 32-base block boundaries, one to three separators between
+                let mut b: Vec<u8> = Vec::new();
+                for _ in 0..rng.range(1, 4) {
+                    let run = match rng.below(3) { 0 => *rng.pick(&[0usize, 1, 31, 32, 33, 63, 64, 65, 96]), 1 => 32 * rng.range(1, 3), _ => rng.below(70) };
+                    b.extend((0..run).map(|_| *rng.pick(b"ACGTacgt")));
+                    if rng.chance(4, 5) { b.extend((0..rng.range(1, 3)).map(|_| *rng.pick(b"NnXx-. \n0Uu"))); }
+                }
+                format!("C16 only {}", tohex(&b))
+            } else { let n = len_choice(rng); format!("C16 only {}", tohex(&ascii_mix(rng, n, true))) }
+        }
         _ => {
             let n = rng.below(60);
             let b1 = ascii_mix(rng, n, false);
